@@ -5,6 +5,7 @@ package main
 
 import (
 	"fmt"
+	"os"
 	"go/types"
 	"math/big"
 	"strings"
@@ -644,10 +645,28 @@ func initBuilderModels() {
 		var cs *Term
 		if k, ok := c.ConstInt(); ok && k < 128 {
 			cs = internStr(string(rune(k)))
+			// the byte s[i] of a string, appended to the prefix s[:i], gives the prefix s[:i+1]
+			// (for the string index reads of this path whose value the path condition fixed to k)
+			lo := 0
+			if os.Getenv("GOVC_DEBUG_WB") != "" { fmt.Fprintf(os.Stderr, "WriteByte const %d recs=%d\n", k, len(st.strIdx)) }
+			if len(st.strIdx) > 8 {
+				lo = len(st.strIdx) - 8
+			}
+			for _, rec := range st.strIdx[lo:] {
+				inb := And(Le(IntC(0), rec.i), Lt(rec.i, strLen(rec.s)), Eq(rec.b, c))
+				e.fact(st, Implies(inb, Eq(App("strcat", SInt, App("substr", SInt, rec.s, IntC(0), rec.i), cs), App("substr", SInt, rec.s, IntC(0), Add(rec.i, IntC(1))))))
+			}
 		} else {
 			cs = App("bytestr", SInt, c)
 			e.fact(st, Le(IntC(0), cs))
 			e.fact(st, Eq(strLen(cs), IntC(1)))
+			e.fact(st, Eq(strByte(cs, IntC(0)), c))
+			// the byte s[i] of a string, appended to the prefix s[:i], gives the prefix s[:i+1]
+			if c.Op == "select" && len(c.Args) == 2 && c.Args[0].Op == "app" && c.Args[0].Name == "strbytes" {
+				src, i := c.Args[0].Args[0], c.Args[1]
+				inb := And(Le(IntC(0), i), Lt(i, strLen(src)))
+				e.fact(st, Implies(inb, Eq(App("strcat", SInt, App("substr", SInt, src, IntC(0), i), cs), App("substr", SInt, src, IntC(0), Add(i, IntC(1))))))
+			}
 		}
 		builderSetC(e, st, callee, b, e.strcat(st, builderGetC(e, st, callee, b), cs))
 		return []Val{{IntC(0), IntC(0)}}
